@@ -172,6 +172,12 @@ def _targets(t):
     return {x.id for x in ast.walk(t) if isinstance(x, ast.Name)}
 
 
+FIXED_WIDTH_OK = {
+    ('ReducedErrorModel', 'set_parameter_names'):
+        'names are validated to at most 50 characters first',
+    ('ReducedPopulationModel', 'set_parameter_names'):
+        'names are validated to at most 50 characters first',
+}
 LEN_COINCIDENCE_OK = {
     ('LogLikelihood', '__init__', 'len(observations)!=n_outputs'):
         'documented convenience: flat observations for a single-output '
@@ -785,6 +791,194 @@ def r00(ctx, repo, files=None):
                         'covariate coefficients included)' % (
                             U(c)[:50], norm_stmt(a_)[:50]))
                     break
+        # L32: a one-shot iterator (enumerate / zip / map / filter / iter /
+        # generator expression) bound to a name outside a loop and iterated
+        # inside it is empty from the second pass on
+        for a_ in ast.walk(fn):
+            if not (isinstance(a_, ast.Assign) and len(a_.targets) == 1
+                    and isinstance(a_.targets[0], ast.Name) and (
+                        isinstance(a_.value, ast.GeneratorExp) or (
+                            isinstance(a_.value, ast.Call) and U(
+                                a_.value.func) in ('enumerate', 'zip', 'map',
+                                                   'filter', 'iter',
+                                                   'reversed')))):
+                continue
+            nm = a_.targets[0].id
+            for l_ in ast.walk(fn):
+                if isinstance(l_, (ast.For, ast.While)) and not any(
+                        x is a_ for x in ast.walk(l_)):
+                    inner = [x for b in l_.body for x in ast.walk(b)
+                             if isinstance(x, ast.For) and isinstance(
+                                 x.iter, ast.Name) and x.iter.id == nm]
+                    if inner:
+                        bad += 1
+                        ctx.violation(
+                            rule, repo.loc(inner[0], cls, fn.name), construct,
+                            'L32 iterator consumed twice %s' % nm,
+                            '`%s` is a one-shot iterator (`%s`) created '
+                            'outside the loop `%s` and iterated inside it: '
+                            'it is exhausted after the first pass, later '
+                            'passes do nothing' % (
+                                nm, U(a_.value)[:40], norm_stmt(l_)[:40]))
+                        break
+        # L33: `not np.sum(x)` / `np.sum(x) == 0` as a test for "all zero":
+        # entries of both signs cancel
+        for c in ast.walk(fn):
+            t_ = None
+            if isinstance(c, ast.UnaryOp) and isinstance(c.op, ast.Not) \
+                    and isinstance(c.operand, ast.Call) and U(
+                        c.operand.func) in ('np.sum', 'sum', 'np.mean'):
+                t_ = c
+            if isinstance(c, ast.Compare) and len(c.ops) == 1 and isinstance(
+                    c.ops[0], (ast.Eq, ast.NotEq)) and isinstance(
+                    c.left, ast.Call) and U(c.left.func) in (
+                    'np.sum', 'sum', 'np.mean') and isinstance(
+                    c.comparators[0], ast.Constant) \
+                    and c.comparators[0].value == 0 and not any(
+                        isinstance(x, (ast.Compare, ast.Call)) and x is not
+                        c.left and (isinstance(x, ast.Compare) or U(
+                            x.func) in ('np.abs', 'abs', 'np.isnan',
+                                        'np.square'))
+                        for x in ast.walk(c.left)):
+                t_ = c
+            if t_ is not None:
+                bad += 1
+                ctx.violation(
+                    rule, repo.loc(t_, cls, fn.name), construct,
+                    'L33 sum as all-zero test',
+                    '`%s` treats a vanishing sum as "all entries are zero": '
+                    'entries of opposite sign cancel (0.5 and -0.5)' % U(
+                        t_)[:50])
+        # L34: fixed-width string arrays truncate longer entries silently
+        for c in ast.walk(fn):
+            if isinstance(c, ast.Call):
+                for k in c.keywords:
+                    if k.arg == 'dtype' and isinstance(
+                            k.value, ast.Constant) and isinstance(
+                            k.value.value, str):
+                        dv = k.value.value.lstrip('<>|=')
+                        if dv[:1] in ('U', 'S') and dv[1:].isdigit() and (
+                                cls, fn.name) not in FIXED_WIDTH_OK:
+                            bad += 1
+                            ctx.violation(
+                                rule, repo.loc(c, cls, fn.name), construct,
+                                'L34 fixed-width strings',
+                                '`%s` stores strings in a fixed-width array '
+                                '(%s): longer names are truncated without a '
+                                'warning and no longer match the names of '
+                                'the wrapped model' % (U(c)[:50],
+                                                       k.value.value))
+        # L35: counts from np.unique without their labels: values that do not
+        # occur have no entry, so position k is not the count of value k
+        for a_ in ast.walk(fn):
+            if isinstance(a_, ast.Assign) and isinstance(
+                    a_.value, ast.Call) and U(a_.value.func) in (
+                    'np.unique', 'numpy.unique') and any(
+                        k.arg == 'return_counts' for k in a_.value.keywords) \
+                    and isinstance(a_.targets[0], ast.Tuple) and isinstance(
+                        a_.targets[0].elts[0], ast.Name) \
+                    and a_.targets[0].elts[0].id.startswith('_'):
+                bad += 1
+                ctx.violation(
+                    rule, repo.loc(a_, cls, fn.name), construct,
+                    'L35 counts without labels',
+                    '`%s` keeps the counts and drops the values they belong '
+                    'to: a value that does not occur has no entry, so the '
+                    'k-th count is not the count of the k-th candidate' % (
+                        norm_stmt(a_)[:60]))
+        # L36: hash() of a string is salted per process
+        for c in ast.walk(fn):
+            if isinstance(c, ast.Call) and U(c.func) == 'hash':
+                bad += 1
+                ctx.violation(
+                    rule, repo.loc(c, cls, fn.name), construct,
+                    'L36 process-dependent hash',
+                    '`%s`: the hash of a string differs between interpreter '
+                    'sessions (PYTHONHASHSEED), so whatever is derived from '
+                    'it (a seed, an order) is not reproducible' % U(c)[:50])
+        # L37: identity comparison of values
+        for c in ast.walk(fn):
+            if isinstance(c, ast.Compare):
+                for op, r_ in zip(c.ops, c.comparators):
+                    if isinstance(op, (ast.Is, ast.IsNot)) and not (
+                            isinstance(r_, ast.Constant) and (
+                                r_.value is None or isinstance(
+                                    r_.value, bool) or r_.value is Ellipsis)
+                    ) and not isinstance(c.left, ast.Constant) \
+                            and not (isinstance(r_, (ast.Name, ast.Attribute))
+                                     and U(r_) in ('self', 'cls')):
+                        bad += 1
+                        ctx.violation(
+                            rule, repo.loc(c, cls, fn.name), construct,
+                            'L37 identity comparison',
+                            '`%s` compares identities, not values: equal '
+                            'numbers / strings are the same object only by '
+                            'an implementation accident (small-integer '
+                            'cache)' % U(c)[:60])
+        # L38: chained comparison that mixes (in)equality with ordering
+        for c in ast.walk(fn):
+            if isinstance(c, ast.Compare) and len(c.ops) > 1:
+                fam = {'eq' if isinstance(o, (ast.Eq, ast.NotEq)) else
+                       'ord' if isinstance(o, (ast.Lt, ast.LtE, ast.Gt,
+                                               ast.GtE)) else 'other'
+                       for o in c.ops}
+                if len(fam) > 1:
+                    bad += 1
+                    ctx.violation(
+                        rule, repo.loc(c, cls, fn.name), construct,
+                        'L38 mixed chained comparison',
+                        '`%s` chains an (in)equality with an ordering: it '
+                        'means `(a op1 b) and (b op2 c)`, which drops every '
+                        'condition on `a` alone' % U(c)[:60])
+        # L39: nan-ignoring reductions turn an invalid value (NaN from a
+        # point outside the support, a failed solve) into a finite result
+        for c in ast.walk(fn):
+            if isinstance(c, ast.Call) and U(c.func) in (
+                    'np.nansum', 'np.nanmean', 'np.nanprod', 'np.nanmax',
+                    'np.nanmin', 'np.nanvar', 'np.nanstd'):
+                bad += 1
+                ctx.violation(
+                    rule, repo.loc(c, cls, fn.name), construct,
+                    'L39 nan-ignoring reduction',
+                    '`%s` drops NaN terms: a term that is NaN because the '
+                    'point lies outside the support (or a value is invalid) '
+                    'no longer propagates, and the routes that use the '
+                    'plain reduction disagree with this one' % U(c)[:50])
+        # L41: np.array_split(x, <count>) cuts into (nearly) equal shares,
+        # whatever the lengths of the pieces that were concatenated into x
+        for c in ast.walk(fn):
+            if isinstance(c, ast.Call) and U(c.func) in (
+                    'np.array_split', 'numpy.array_split') \
+                    and len(c.args) >= 2 and not isinstance(
+                        c.args[1], (ast.List, ast.Tuple)) and not any(
+                        isinstance(x, ast.Call) and U(x.func) in (
+                            'np.cumsum', 'numpy.cumsum')
+                        for x in ast.walk(c.args[1])):
+                bad += 1
+                ctx.violation(
+                    rule, repo.loc(c, cls, fn.name), construct,
+                    'L41 equal shares',
+                    '`%s` splits into `%s` shares of (nearly) equal length: '
+                    'pieces of different length that were joined before do '
+                    'not come back as they were' % (U(c)[:50],
+                                                    U(c.args[1])[:20]))
+        # L42: np.atleast_2d turns a 1-D input into one *row*; the documented
+        # 1-D inputs of the library are one value per individual (a column)
+        for c in ast.walk(fn):
+            if isinstance(c, ast.Call) and U(c.func) in (
+                    'np.atleast_2d', 'np.atleast_3d') and c.args and any(
+                        isinstance(x, ast.Name) and x.id in {
+                            a.arg for a in fn.args.args}
+                        for x in ast.walk(c.args[0])):
+                bad += 1
+                ctx.violation(
+                    rule, repo.loc(c, cls, fn.name), construct,
+                    'L42 atleast_2d row',
+                    '`%s` prepends the new axis: a 1-D input of n values '
+                    'becomes shape (1, n), one row, where the library\'s '
+                    '1-D layouts mean n individuals (n, 1); the row then '
+                    'broadcasts silently against per-individual arrays'
+                    % U(c)[:50])
         # L12: squeeze without axis turns a length-1 input into a 0-d
         # array (len() and indexing then fail)
         pset = {a.arg for a in fn.args.args + fn.args.kwonlyargs} - {'self'}
